@@ -12,6 +12,16 @@ From QV Require Import Jssp.DomainWall.
 From QVGen Require Import C15Gen.
 Open Scope Z_scope.
 
+(* ------------------------------------------------------------------ __init__
+   The constructor raises exactly when the model's mk_dwvar does (no value / a repeated value) and otherwise stores what
+   the data representation of the spec reads back from the record: _value_indices = dw_value_indices, _n_qubits = var_nq
+   (the two attributes it stores unchanged, _qubit_start_index and _values, are v_start and v_values).  So the attribute
+   table of translator/specs/c15.py is not taken on trust for this class. *)
+Lemma link_DWV_init : forall q vals id o,
+  gen_DWV_init q vals = do v <- mk_dwvar id o (Z.to_nat q) vals; Ok (mkDWC (dw_value_indices v) (Z.of_nat (var_nq v))).
+Proof. intros q vals id o. exact (dwv_init_model id o (Z.to_nat q) vals). Qed.
+Print Assumptions link_DWV_init.
+
 (* ------------------------------------------------------------------ properties *)
 Lemma link_DWV_values : forall v, gen_DWV_values v = v_values v.
 Proof. reflexivity. Qed.
@@ -63,8 +73,7 @@ Print Assumptions link_DWV_viability_term.
    `value not in self._value_indices` / `self._value_indices[value]` are index_of on the values. *)
 Lemma link_DWV_value_term : forall v t nq, gen_DWV_value_term v t nq = value_term v t (Z.to_nat nq).
 Proof.
-  intros v t nq. unfold gen_DWV_value_term, value_term, dw_value_indices, py_enumerate_swap.
-  change (combine (v_values v) (map Z.of_nat (seq 0 (List.length (v_values v))))) with (index_dict_from 0 (v_values v)).
+  intros v t nq. unfold gen_DWV_value_term, value_term, dw_value_indices.
   rewrite index_dict_mem, index_dict_get.
   destruct (index_of t (v_values v)) as [i|]; cbn [negb]; [|reflexivity].
   replace (Z.of_nat (var_nq v) =? 0) with (var_nq v =? 0)%nat
@@ -96,3 +105,428 @@ Proof.
   rewrite py_index_nat. destruct (nth_error (v_values v) d); reflexivity.
 Qed.
 Print Assumptions link_DWV_value_from_bitlist.
+(* ================================================================== the encoder: pair terms
+   queasars/job_shop_scheduling/domain_wall_hamiltonian_encoder.py, _operation_precedence_term / _operation_overlap_term
+   against Encoder.prec_plan / overlap_plan (early exits, penalised start-time pairs), plan_term (the operator) and the
+   increments of _operation_constraint_counts.
+
+   The model keeps each variable next to its operation and the counts as a function; the implementation keeps two dicts.
+   The links are stated for a state `st` as _prepare_encoding leaves it (hypotheses = what _prepare_encoding establishes,
+   it is the only writer of these dicts apart from the increments below):
+     - the variable stored under an operation o is (the Python view, C15Aux.ghost, of) the variable the model carries
+       for o                                                                              [Hv.., Ho..]
+     - the count dict has an entry for (operation, t) for every value t of its variable  [Hc..]
+   and say: same early exits, same pairs in the same order, same operator, and every penalised pair increments the two
+   entries (operation_1, start_1), (operation_2, start_2) (C15Aux.dict_plan_bump, the dict form of Encoder.plan_bump). *)
+From QV Require Import Jssp.Encoder.
+
+Definition set_counts (st : encstate) (c : counts) : encstate := mkSt (st_mo st) (st_vars st) c (st_nq st) (st_prepared st).
+
+Definition pair_result (o1 o2 : operation) (st : encstate) (plan : result pterm) : result (opexpr * encstate) :=
+  do p <- plan;
+  do t <- plan_term (Z.to_nat (st_nq st)) p;
+  Ok (t, set_counts st (dict_plan_bump o1 o2 p (st_counts st))).
+
+(* the loop over the penalised pairs *)
+Lemma pair_loop o1 o2 v1 v2 pairs : forall acc st,
+  (forall p, In p pairs -> In (fst p) (v_values v1) /\ In (snd p) (v_values v2)) ->
+  covers (st_counts st) o1 (v_values v1) -> covers (st_counts st) o2 (v_values v2) ->
+  py_foldM (fun '(local_terms, st) p =>
+      do n1 <- py_dict_get ckey_eqb (st_counts st) (o1, fst p);
+      let st := mkSt (st_mo st) (st_vars st) (py_dict_set ckey_eqb (st_counts st) (o1, fst p) (n1 + 1)) (st_nq st) (st_prepared st) in
+      do n2 <- py_dict_get ckey_eqb (st_counts st) (o2, snd p);
+      let st := mkSt (st_mo st) (st_vars st) (py_dict_set ckey_eqb (st_counts st) (o2, snd p) (n2 + 1)) (st_nq st) (st_prepared st) in
+      do a <- gen_DWV_value_term (ghost v1) (fst p) (st_nq st);
+      do b <- gen_DWV_value_term (ghost v2) (snd p) (st_nq st);
+      let local_terms := (local_terms ++ [OpMul a b])%list in
+      Ok (local_terms, st)) pairs (acc, st)
+  = do ts <- mapM (pair_local (Z.to_nat (st_nq st)) v1 v2) pairs;
+    Ok ((acc ++ ts)%list, set_counts st (dict_bump o1 o2 pairs (st_counts st))).
+Proof.
+  induction pairs as [|p r IH]; intros acc [mo vars c nq pr] Hin C1 C2.
+  - cbn. now rewrite app_nil_r.
+  - cbn [py_foldM st_counts st_mo st_vars st_nq st_prepared].
+    destruct (Hin p (or_introl eq_refl)) as [H1 H2].
+    cbn [st_counts] in C1, C2.
+    pose proof (C1 _ H1) as K1. destruct (py_dict_get ckey_eqb c (o1, fst p)) as [n1|] eqn:E1; [|discriminate]. cbn [bind].
+    assert (D1 : dict_inc c (o1, fst p) = py_dict_set ckey_eqb c (o1, fst p) (n1 + 1)) by (unfold dict_inc; now rewrite E1).
+    rewrite <- D1.
+    pose proof (covers_inc c (o1, fst p) o2 _ C2 _ H2) as K2.
+    destruct (py_dict_get ckey_eqb (dict_inc c (o1, fst p)) (o2, snd p)) as [n2|] eqn:E2; [|discriminate]. cbn [bind].
+    assert (D2 : dict_inc (dict_inc c (o1, fst p)) (o2, snd p) = py_dict_set ckey_eqb (dict_inc c (o1, fst p)) (o2, snd p) (n2 + 1))
+      by (unfold dict_inc at 1; now rewrite E2).
+    rewrite <- D2. rewrite !link_DWV_value_term.
+    change (value_term (ghost v1)) with (value_term v1). change (value_term (ghost v2)) with (value_term v2).
+    cbn [mapM]. unfold pair_local at 1.
+    destruct (value_term v1 (fst p) (Z.to_nat nq)) as [a|e]; cbn [bind]; [|reflexivity].
+    destruct (value_term v2 (snd p) (Z.to_nat nq)) as [b|e]; cbn [bind]; [|reflexivity].
+    rewrite IH.
+    + cbn [st_nq st_counts]. destruct (mapM _ r) as [ts|e]; cbn [bind]; [|reflexivity].
+      rewrite <- app_assoc. reflexivity.
+    + intros q Hq. apply Hin. now right.
+    + cbn [st_counts]. now apply covers_inc, covers_inc.
+    + cbn [st_counts]. now apply covers_inc, covers_inc.
+Qed.
+
+Lemma prec_pairs_in v1 v2 p : In p (prec_pairs v1 v2) -> In (fst p) (v_values v1) /\ In (snd p) (v_values v2).
+Proof. unfold prec_pairs. intros H. apply filter_In in H as [H _]. destruct p. now apply in_prod_iff in H. Qed.
+
+Lemma overlap_pairs_in v1 v2 p : In p (overlap_pairs v1 v2) -> In (fst p) (v_values v1) /\ In (snd p) (v_values v2).
+Proof. unfold overlap_pairs. intros H. apply filter_In in H as [H _]. destruct p. now apply in_prod_iff in H. Qed.
+
+Lemma link_Enc_precedence_term : forall o1 o2 st v1 v2,
+  py_dict_get op_eqb (st_vars st) o1 = Ok (ghost v1) -> py_dict_get op_eqb (st_vars st) o2 = Ok (ghost v2) ->
+  v_op v1 = o1 -> v_op v2 = o2 ->
+  covers (st_counts st) o1 (v_values v1) -> covers (st_counts st) o2 (v_values v2) ->
+  gen_Enc_precedence_term o1 o2 st = pair_result o1 o2 st (prec_plan v1 v2).
+Proof.
+  intros o1 o2 st v1 v2 Hv1 Hv2 Ho1 Ho2 Hc1 Hc2. subst o1 o2.
+  unfold gen_Enc_precedence_term, pair_result, prec_plan, gen_DWV_values. rewrite Hv1, Hv2. cbn [bind].
+  rewrite py_index_m1, py_index_0. change (vmax (ghost v1)) with (vmax v1). change (vmin (ghost v2)) with (vmin v2).
+  change (v_values (ghost v1)) with (v_values v1). change (v_values (ghost v2)) with (v_values v2).
+  destruct (vmax v1) as [mx1|e]; cbn [bind]; [|reflexivity].
+  destruct (vmin v2) as [mn2|e]; cbn [bind]; [|reflexivity].
+  fold (v_dur v1).
+  destruct (mx1 + v_dur v1 <=? mn2); cbn [bind plan_term dict_plan_bump].
+  - destruct (pauli_identity_string _); cbn [bind]; [|reflexivity]. destruct st; reflexivity.
+  - rewrite (comp2_filter_prod (fun s1 s2 => negb (s1 + v_dur v1 <=? s2))).
+    fold (prec_pairs v1 v2).
+    cbv zeta.
+    match goal with |- bind ?X _ = _ =>
+      replace X with (do ts <- mapM (pair_local (Z.to_nat (st_nq st)) v1 v2) (prec_pairs v1 v2);
+                      Ok (([] ++ ts)%list, set_counts st (dict_bump (v_op v1) (v_op v2) (prec_pairs v1 v2) (st_counts st))))
+        by (symmetry; exact (pair_loop (v_op v1) (v_op v2) v1 v2 (prec_pairs v1 v2) [] st (prec_pairs_in v1 v2) Hc1 Hc2))
+    end.
+    destruct (mapM _ _) as [ts|e]; cbn [bind app]; [|reflexivity].
+    destruct (sum_ops ts); reflexivity.
+Qed.
+Print Assumptions link_Enc_precedence_term.
+
+Lemma link_Enc_overlap_term : forall o1 o2 st v1 v2,
+  py_dict_get op_eqb (st_vars st) o1 = Ok (ghost v1) -> py_dict_get op_eqb (st_vars st) o2 = Ok (ghost v2) ->
+  v_op v1 = o1 -> v_op v2 = o2 ->
+  covers (st_counts st) o1 (v_values v1) -> covers (st_counts st) o2 (v_values v2) ->
+  gen_Enc_overlap_term o1 o2 st = pair_result o1 o2 st (overlap_plan v1 v2).
+Proof.
+  intros o1 o2 st v1 v2 Hv1 Hv2 Ho1 Ho2 Hc1 Hc2. subst o1 o2.
+  unfold gen_Enc_overlap_term, pair_result, overlap_plan, gen_DWV_values. rewrite Hv1, Hv2. cbn [bind].
+  rewrite !py_index_m1, !py_index_0.
+  change (vmax (ghost v1)) with (vmax v1). change (vmin (ghost v2)) with (vmin v2).
+  change (vmax (ghost v2)) with (vmax v2). change (vmin (ghost v1)) with (vmin v1).
+  change (v_values (ghost v1)) with (v_values v1). change (v_values (ghost v2)) with (v_values v2).
+  destruct (vmax v1) as [mx1|e]; cbn [bind]; [|reflexivity].
+  destruct (vmin v2) as [mn2|e]; cbn [bind]; [|reflexivity].
+  fold (v_dur v1). fold (v_dur v2).
+  destruct (mx1 + v_dur v1 <=? mn2); cbn [bind plan_term dict_plan_bump].
+  { destruct (pauli_identity_string _); cbn [bind]; [|reflexivity]. destruct st; reflexivity. }
+  destruct (vmax v2) as [mx2|e]; cbn [bind]; [|reflexivity].
+  destruct (vmin v1) as [mn1|e]; cbn [bind]; [|reflexivity].
+  destruct (mx2 + v_dur v2 <=? mn1); cbn [bind plan_term dict_plan_bump].
+  { destruct (pauli_identity_string _); cbn [bind]; [|reflexivity]. destruct st; reflexivity. }
+  rewrite (comp2_filter_prod (fun s1 s2 => (s1 <? s2 + v_dur v2) && (s2 <? s1 + v_dur v1))).
+  fold (overlap_pairs v1 v2).
+  cbv zeta.
+  match goal with |- bind ?X _ = _ =>
+    replace X with (do ts <- mapM (pair_local (Z.to_nat (st_nq st)) v1 v2) (overlap_pairs v1 v2);
+                    Ok (([] ++ ts)%list, set_counts st (dict_bump (v_op v1) (v_op v2) (overlap_pairs v1 v2) (st_counts st))))
+      by (symmetry; exact (pair_loop (v_op v1) (v_op v2) v1 v2 (overlap_pairs v1 v2) [] st (overlap_pairs_in v1 v2) Hc1 Hc2))
+  end.
+  destruct (mapM _ _) as [ts|e]; cbn [bind app]; [|reflexivity].
+  destruct (sum_ops ts); reflexivity.
+Qed.
+Print Assumptions link_Enc_overlap_term.
+
+(* ================================================================== the encoder: _prepare_encoding / n_qubits
+   against Encoder.prepare_encoding (prep_jobs / prep_ops: the ValueError for a job longer than the limit, per operation
+   the window range(start_offset, start_offset + limit - (start_offset + end_offset) + 1), the qubit offset, the
+   construction order) and Encoder.n_qubits.  No hypotheses: for every instance and limit, starting from the state
+   __init__ leaves (C15Aux.st_init), the method raises exactly when the model does and otherwise leaves the state
+   C15Aux.state_of_enc e: every variable of the model's encoding, in the model's order, stored under its operation
+   (add_var: machine dict, variable dict, zeroed counts, qubit count). *)
+
+(* the inner loop over the operations of one job *)
+From QV Require Import Jssp.Valid_proofs.
+Open Scope Z_scope.
+
+(* the body of the inner loop (over the operations of one job), as generated *)
+Definition inner_body (L : Z) :=
+  fun '(start_offset, end_offset, st) operation_ =>
+      let st :=
+        (if (negb (py_mem String.eqb (op_machine operation_) (py_dict_keys (st_mo st))))
+         then mkSt (py_dict_set String.eqb (st_mo st) (op_machine operation_) ([] : (list operation))) (st_vars st) (st_counts st) (st_nq st) (st_prepared st)
+         else st) in
+      do dv1_ <- py_dict_get String.eqb (st_mo st) (op_machine operation_);
+      let st := mkSt (py_dict_set String.eqb (st_mo st) (op_machine operation_) (dv1_ ++ [operation_])%list) (st_vars st) (st_counts st) (st_nq st) (st_prepared st) in
+      let n_start_times := ((L - (start_offset + end_offset)) + 1) in
+      do v2_ <- mk_dwvar_py (st_nq st) (py_range start_offset (start_offset + n_start_times));
+      let st := mkSt (st_mo st) (py_dict_set op_eqb (st_vars st) operation_ v2_) (st_counts st) (st_nq st) (st_prepared st) in
+      do dv3_ <- py_dict_get op_eqb (st_vars st) operation_;
+      let st :=
+        fold_left (fun st start_time =>
+          mkSt (st_mo st) (st_vars st) (py_dict_set ckey_eqb (st_counts st) (operation_, start_time) 0) (st_nq st) (st_prepared st))
+          (gen_DWV_values dv3_) st in
+      do dv4_ <- py_dict_get op_eqb (st_vars st) operation_;
+      let st := mkSt (st_mo st) (st_vars st) (st_counts st) ((st_nq st) + (gen_DWV_n_qubits dv4_)) (st_prepared st) in
+      Ok (start_offset + op_dur operation_, end_offset - op_dur operation_, st).
+
+Lemma prep_ops_loop L : forall ops so eo st q id, st_nq st = Z.of_nat q ->
+  py_foldM (inner_body L) ops (so, eo, st)
+  = do vs <- prep_ops L so eo q id ops;
+    Ok (so + sumZ (map op_dur ops), eo - sumZ (map op_dur ops), fold_left add_var vs st).
+Proof.
+  induction ops as [|o r IH]; intros so eo [mo vars c nq pr] q id Hq; cbn [st_nq] in Hq; subst nq.
+  - cbn. do 3 f_equal; lia.
+  - cbn [py_foldM prep_ops map]. rewrite sumZ_cons. unfold inner_body at 1.
+    cbn [st_mo st_vars st_counts st_nq st_prepared].
+    set (mo' := if negb (py_mem String.eqb (op_machine o) (py_dict_keys mo)) then py_dict_set String.eqb mo (op_machine o) [] else mo).
+    assert (Emo : (if negb (py_mem String.eqb (op_machine o) (py_dict_keys mo))
+                   then mkSt (py_dict_set String.eqb mo (op_machine o) []) vars c (Z.of_nat q) pr
+                   else mkSt mo vars c (Z.of_nat q) pr) = mkSt mo' vars c (Z.of_nat q) pr)
+      by (unfold mo'; destruct (negb _); reflexivity).
+    rewrite Emo. cbn [st_mo st_vars st_counts st_nq st_prepared].
+    destruct (mo_get_ok mo (op_machine o)) as [l El]. fold mo' in El. rewrite El. cbn [bind].
+    rewrite py_range_zrange.
+    replace (so + (L - (so + eo) + 1) - so) with (L - (so + eo) + 1) by lia.
+    rewrite (mk_dwvar_py_ghost id o q).
+    destruct (mk_dwvar id o q (zrange so (L - (so + eo) + 1))) as [v|e] eqn:Ev; cbn [bind]; [|reflexivity].
+    rewrite (dict_get_set_same op_eqb op_eqb_eq). cbn [bind].
+    unfold gen_DWV_values, gen_DWV_n_qubits.
+    rewrite (counts_fold_state o (v_values (ghost v))). cbn [st_mo st_vars st_counts st_nq st_prepared].
+    rewrite (dict_get_set_same op_eqb op_eqb_eq). cbn [bind].
+    assert (Ho : v_op v = o /\ v_values (ghost v) = v_values v /\ var_nq (ghost v) = var_nq v).
+    { apply mk_dwvar_ok in Ev. subst v. repeat split. }
+    destruct Ho as [Ho [Hvals Hnq]]. rewrite Hvals, Hnq.
+    rewrite (IH (so + op_dur o) (eo - op_dur o) _ (q + var_nq v)%nat (S id)) by (cbn [st_nq]; lia).
+    destruct (prep_ops L (so + op_dur o) (eo - op_dur o) (q + var_nq v) (S id) r) as [vs|e]; cbn [bind]; [|reflexivity].
+    cbn [fold_left]. f_equal. f_equal; [f_equal; lia|]. f_equal.
+    unfold add_var. cbn [st_mo st_vars st_counts st_nq st_prepared]. rewrite Ho.
+    unfold mo_step. fold mo'. rewrite El. reflexivity.
+Qed.
+
+Lemma prep_jobs_loop L : forall jobs st q id, st_nq st = Z.of_nat q ->
+  py_foldM (fun st job_ =>
+      let start_offset := 0 in
+      let end_offset := py_sum_Z (map (fun operation_ => op_dur operation_) (job_ops job_)) in
+      if L <? end_offset then Err "ValueError"%string
+      else
+        do l5_ <- py_foldM (inner_body L) (job_ops job_) (start_offset, end_offset, st);
+        let '(start_offset, end_offset, st) := l5_ in
+        Ok st) jobs st
+  = do js <- prep_jobs L q id jobs; Ok (fold_left add_var (concat js) st).
+Proof.
+  induction jobs as [|j r IH]; intros st q id Hq; [reflexivity|].
+  cbn [py_foldM prep_jobs]. cbv zeta. rewrite py_sum_Z_sumZ.
+  change (sumZ (map (fun operation_ : operation => op_dur operation_) (job_ops j))) with (job_total j). rewrite Z.gtb_ltb.
+  destruct (L <? job_total j); [reflexivity|].
+  rewrite (prep_ops_loop L (job_ops j) 0 (job_total j) st q id Hq).
+  destruct (prep_ops L 0 (job_total j) q id (job_ops j)) as [vs|e]; cbn [bind]; [|reflexivity].
+  rewrite (IH _ (q + sum_nq vs)%nat (id + List.length vs)%nat) by (rewrite nq_add_vars, Hq; lia).
+  destruct (prep_jobs L _ _ r) as [rest|e]; cbn [bind]; [|reflexivity].
+  cbn [concat]. now rewrite fold_left_app.
+Qed.
+
+Lemma link_Enc_prepare_encoding : forall I L,
+  gen_Enc_prepare_encoding I L st_init = do e <- prepare_encoding I L; Ok (tt, state_of_enc e).
+Proof.
+  intros I L. unfold gen_Enc_prepare_encoding, prepare_encoding.
+  match goal with |- bind ?X _ = _ =>
+    replace X with (do js <- prep_jobs L 0 0 (inst_jobs I); Ok (fold_left add_var (concat js) st_init))
+      by (symmetry; exact (prep_jobs_loop L (inst_jobs I) st_init 0%nat 0%nat eq_refl))
+  end.
+  destruct (prep_jobs L 0 0 (inst_jobs I)) as [js|e]; reflexivity.
+Qed.
+Print Assumptions link_Enc_prepare_encoding.
+
+(* n_qubits: on a fresh encoder it prepares the encoding first; afterwards it only reads the cached count *)
+
+Lemma link_Enc_n_qubits : forall I L,
+  gen_Enc_n_qubits I L st_init = do e <- prepare_encoding I L; Ok (Z.of_nat (e_nq e), state_of_enc e).
+Proof.
+  intros I L. unfold gen_Enc_n_qubits. cbn [st_init st_prepared negb]. rewrite link_Enc_prepare_encoding.
+  destruct (prepare_encoding I L) as [e|err] eqn:E; cbn [bind snd]; [|reflexivity].
+  now rewrite (st_nq_state_of_enc I L e E).
+Qed.
+Print Assumptions link_Enc_n_qubits.
+
+Lemma link_Enc_n_qubits_model : forall I L,
+  (do r <- gen_Enc_n_qubits I L st_init; Ok (fst r)) = do n <- n_qubits I L; Ok (Z.of_nat n).
+Proof. intros I L. rewrite link_Enc_n_qubits. unfold n_qubits. destruct (prepare_encoding I L); reflexivity. Qed.
+Print Assumptions link_Enc_n_qubits_model.
+
+Lemma link_Enc_n_qubits_prepared : forall I L st, st_prepared st = true -> gen_Enc_n_qubits I L st = Ok (st_nq st, st).
+Proof. intros I L st H. unfold gen_Enc_n_qubits. rewrite H. reflexivity. Qed.
+Print Assumptions link_Enc_n_qubits_prepared.
+
+(* ------------------------------------------------------------------ the pair terms on the state _prepare_encoding leaves
+   The hypotheses of link_Enc_precedence_term / link_Enc_overlap_term hold in the state C15Aux.state_of_enc e (what
+   link_Enc_prepare_encoding shows _prepare_encoding leaves) and in every state reached from it by pair terms (they only
+   increment counts: C15Aux.covers_plan_bump), provided the operations are pairwise different (well-formed instance). *)
+Definition reached_from_prepared (e : enc) (st : encstate) : Prop :=
+  st_vars st = st_vars (state_of_enc e) /\ st_nq st = st_nq (state_of_enc e)
+  /\ forall v, In v (e_vars e) -> covers (st_counts st) (v_op v) (v_values v).
+
+Lemma reached_prepared e : reached_from_prepared e (state_of_enc e).
+Proof. repeat split. intros v Hv. now apply counts_cover. Qed.
+
+Lemma reached_pair_result e st o1 o2 p t st' : reached_from_prepared e st ->
+  pair_result o1 o2 st (Ok p) = Ok (t, st') -> reached_from_prepared e st'.
+Proof.
+  intros [Hv [Hn Hc]]. unfold pair_result. cbn [bind]. destruct (plan_term _ p); cbn [bind]; [|discriminate]. intros [= _ <-].
+  unfold set_counts. cbn [st_vars st_nq st_counts]. repeat split; [exact Hv | exact Hn|].
+  intros v Hin. apply covers_plan_bump, Hc, Hin.
+Qed.
+
+Lemma link_Enc_precedence_term_after_prepare : forall e st v1 v2, NoDup (map v_op (e_vars e)) ->
+  reached_from_prepared e st -> In v1 (e_vars e) -> In v2 (e_vars e) ->
+  gen_Enc_precedence_term (v_op v1) (v_op v2) st = pair_result (v_op v1) (v_op v2) st (prec_plan v1 v2).
+Proof.
+  intros e st v1 v2 Hnd [Hv [_ Hc]] H1 H2.
+  apply link_Enc_precedence_term; try reflexivity; try (now apply Hc); rewrite Hv; now apply prepared_state_ok.
+Qed.
+Print Assumptions link_Enc_precedence_term_after_prepare.
+
+Lemma link_Enc_overlap_term_after_prepare : forall e st v1 v2, NoDup (map v_op (e_vars e)) ->
+  reached_from_prepared e st -> In v1 (e_vars e) -> In v2 (e_vars e) ->
+  gen_Enc_overlap_term (v_op v1) (v_op v2) st = pair_result (v_op v1) (v_op v2) st (overlap_plan v1 v2).
+Proof.
+  intros e st v1 v2 Hnd [Hv [_ Hc]] H1 H2.
+  apply link_Enc_overlap_term; try reflexivity; try (now apply Hc); rewrite Hv; now apply prepared_state_ok.
+Qed.
+Print Assumptions link_Enc_overlap_term_after_prepare.
+
+(* ------------------------------------------------------------------ the encoder's constructor
+   __init__ stores exactly its arguments and the empty caches; the part the translated methods work on is the state
+   C15Aux.st_init that link_Enc_prepare_encoding / link_Enc_n_qubits start from. *)
+Lemma link_Enc_init : forall I L pe po pp popt ps,
+  gen_Enc_init I L pe po pp popt ps = mkInit false false [] [] [] 0 None pe po pp popt ps.
+Proof. reflexivity. Qed.
+Print Assumptions link_Enc_init.
+
+Lemma link_Enc_init_state : forall I L pe po pp popt ps, encinit_state (gen_Enc_init I L pe po pp popt ps) = st_init.
+Proof. reflexivity. Qed.
+Print Assumptions link_Enc_init_state.
+
+(* ------------------------------------------------------------------ the character decoding *)
+(* translate_result_bitstring.translate: '1' / '0' are the bits true / false of the model (Encoder.translate works on
+   booleans), anything else is a ValueError *)
+Lemma link_Enc_translate_char : forall b : bool, gen_Enc_translate_char (if b then "1" else "0")%string = Ok (b2z b).
+Proof. intros []; reflexivity. Qed.
+Print Assumptions link_Enc_translate_char.
+
+Lemma link_Enc_translate_char_other : forall s, s <> "1"%string -> s <> "0"%string -> gen_Enc_translate_char s = Err ValueError.
+Proof.
+  intros s H1 H0. unfold gen_Enc_translate_char.
+  destruct (String.eqb_spec s "1"); [contradiction|]. destruct (String.eqb_spec s "0"); [contradiction|]. reflexivity.
+Qed.
+Print Assumptions link_Enc_translate_char_other.
+
+(* ================================================================== the encoder: _makespan_optimization_term
+   against Encoder.makespan_term, for a state that holds the encoding e of I (hypotheses: what _prepare_encoding
+   establishes, see link_Enc_prepare_encoding and C15Aux.prepared_state_ok): the variables of e are those of the
+   operations of I, job by job; each is found under its operation; the cached qubit count is e's.
+   `(n_jobs + 1) ** t` is Z.pow (spec idiom pow-nonneg-exponent), the division is exact (float-as-Q). *)
+
+(* the inner loop: the end-time weights of one job's last operation *)
+Lemma makespan_inner n maxv v st : forall vals acc,
+  py_foldM (fun '(local_terms, st) start_time =>
+      let operation_end := start_time + op_dur (v_op v) in
+      do q3_ <- qdiv (inject_Z (Z.pow (n + 1) operation_end)) (inject_Z maxv);
+      do v4_ <- gen_DWV_value_term (ghost v) start_time (st_nq st);
+      let local_terms := (local_terms ++ [OpScale q3_ v4_])%list in
+      Ok (local_terms, st)) vals (acc, st)
+  = do ts <- mapM (makespan_local (Z.to_nat (st_nq st)) n maxv v) vals; Ok ((acc ++ ts)%list, st).
+Proof.
+  induction vals as [|t r IH]; intros acc; [cbn; now rewrite app_nil_r|].
+  cbn [py_foldM mapM]. cbv zeta. unfold makespan_local at 1. fold (v_dur v).
+  destruct (Z.eqb_spec maxv 0) as [->|Hm]; [reflexivity|].
+  rewrite (qdiv_shape _ _ Hm). cbn [bind]. rewrite link_DWV_value_term. change (value_term (ghost v)) with (value_term v).
+  destruct (value_term v t (Z.to_nat (st_nq st))) as [vt|e]; cbn [bind]; [|reflexivity].
+  rewrite IH. destruct (mapM _ r) as [ts|e]; cbn [bind]; [|reflexivity]. now rewrite <- app_assoc.
+Qed.
+
+Lemma makespan_outer n maxv st : forall jobs vss acc,
+  map (map v_op) vss = map job_ops jobs ->
+  (forall v, In v (concat vss) -> py_dict_get op_eqb (st_vars st) (v_op v) = Ok (ghost v)) ->
+  py_foldM (fun '(local_terms, st) job_ =>
+      do it1_ <- py_index (job_ops job_) (-1);
+      let last_operation := it1_ in
+      do dv2_ <- py_dict_get op_eqb (st_vars st) last_operation;
+      let start_variable := dv2_ in
+      do l5_ <-
+        py_foldM (fun '(local_terms, st) start_time =>
+          let operation_end := start_time + op_dur last_operation in
+          do q3_ <- qdiv (inject_Z (Z.pow (n + 1) operation_end)) (inject_Z maxv);
+          do v4_ <- gen_DWV_value_term start_variable start_time (st_nq st);
+          let local_terms := (local_terms ++ [OpScale q3_ v4_])%list in
+          Ok (local_terms, st)) (gen_DWV_values start_variable) (local_terms, st);
+      let '(local_terms, st) := l5_ in
+      Ok (local_terms, st)) jobs (acc, st)
+  = do per <- mapM (fun vs => match last_opt vs with
+                              | None => Err IndexError
+                              | Some v => mapM (makespan_local (Z.to_nat (st_nq st)) n maxv v) (v_values v)
+                              end) vss;
+    Ok ((acc ++ concat per)%list, st).
+Proof.
+  induction jobs as [|j r IH]; intros vss acc Hm Hl.
+  - destruct vss; [|discriminate]. cbn. now rewrite app_nil_r.
+  - destruct vss as [|vs vss']; [discriminate|]. cbn [map] in Hm. injection Hm as Hj Hr.
+    cbn [py_foldM mapM]. rewrite py_index_m1_last_opt, <- Hj, last_opt_map.
+    destruct (last_opt vs) as [v|] eqn:El; cbn [option_map bind]; [|reflexivity].
+    assert (Hin : In v (concat (vs :: vss'))) by (cbn [concat]; apply in_or_app; left; now apply last_opt_In).
+    rewrite (Hl v Hin). cbn [bind]. cbv zeta. unfold gen_DWV_values. change (v_values (ghost v)) with (v_values v).
+    match goal with |- context [py_foldM ?F (v_values v) (acc, st)] =>
+      replace (py_foldM F (v_values v) (acc, st))
+        with (do ts <- mapM (makespan_local (Z.to_nat (st_nq st)) n maxv v) (v_values v); Ok ((acc ++ ts)%list, st))
+        by (symmetry; exact (makespan_inner n maxv v st (v_values v) acc))
+    end.
+    destruct (mapM (makespan_local _ n maxv v) (v_values v)) as [ts|e]; cbn [bind]; [|reflexivity].
+    assert (Hl' : forall w, In w (concat vss') -> py_dict_get op_eqb (st_vars st) (v_op w) = Ok (ghost w))
+      by (intros w Hw; apply Hl; cbn [concat]; apply in_or_app; now right).
+    match goal with |- context [py_foldM ?F r ?init] =>
+      replace (py_foldM F r init) with
+        (do per <- mapM (fun vs => match last_opt vs with
+                              | None => Err IndexError
+                              | Some v => mapM (makespan_local (Z.to_nat (st_nq st)) n maxv v) (v_values v)
+                              end) vss';
+         Ok (((acc ++ ts) ++ concat per)%list, st))
+        by (symmetry; exact (IH vss' (acc ++ ts)%list Hr Hl'))
+    end.
+    destruct (mapM _ vss') as [per|e]; cbn [bind concat]; [|reflexivity]. now rewrite app_assoc.
+Qed.
+
+Lemma link_Enc_makespan_term : forall I L e st,
+  map (map v_op) (e_jobs e) = map job_ops (inst_jobs I) ->
+  (forall v, In v (e_vars e) -> py_dict_get op_eqb (st_vars st) (v_op v) = Ok (ghost v)) ->
+  st_nq st = Z.of_nat (e_nq e) ->
+  gen_Enc_makespan_term I L st = do t <- makespan_term e L; Ok (t, st).
+Proof.
+  intros I L e st Hm Hl Hq. unfold gen_Enc_makespan_term, makespan_term. cbv zeta.
+  assert (Hn : py_len (inst_jobs I) = Z.of_nat (List.length (e_jobs e))).
+  { unfold py_len. f_equal. rewrite <- (map_length job_ops), <- Hm, map_length. reflexivity. }
+  rewrite Hn.
+  match goal with |- bind ?X _ = _ =>
+    replace X with (do per <- mapM (fun vs => match last_opt vs with
+                              | None => Err IndexError
+                              | Some v => mapM (makespan_local (Z.to_nat (st_nq st)) (Z.of_nat (List.length (e_jobs e)))
+                                                 (Z.of_nat (List.length (e_jobs e)) * (Z.of_nat (List.length (e_jobs e)) + 1) ^ L) v) (v_values v)
+                              end) (e_jobs e);
+                    Ok (([] ++ concat per)%list, st))
+      by (symmetry; exact (makespan_outer _ _ st (inst_jobs I) (e_jobs e) [] Hm Hl))
+  end.
+  rewrite Hq, Nat2Z.id.
+  destruct (mapM _ (e_jobs e)) as [per|err]; cbn [bind app]; [|reflexivity].
+  destruct (sum_ops (concat per)); reflexivity.
+Qed.
+Print Assumptions link_Enc_makespan_term.
+
+Lemma link_Enc_makespan_term_after_prepare : forall I L e st, prepare_encoding I L = Ok e ->
+  NoDup (map v_op (e_vars e)) -> reached_from_prepared e st ->
+  gen_Enc_makespan_term I L st = do t <- makespan_term e L; Ok (t, st).
+Proof.
+  intros I L e st He Hnd [Hv [Hn _]]. apply link_Enc_makespan_term.
+  - unfold prepare_encoding in He. destruct (prep_jobs L 0 0 (inst_jobs I)) as [js|] eqn:Ej; cbn [bind] in He; [|discriminate].
+    injection He as <-. cbn [e_jobs]. eapply prep_jobs_ops, Ej.
+  - intros v Hin. rewrite Hv. now apply prepared_state_ok.
+  - rewrite Hn. eapply st_nq_state_of_enc, He.
+Qed.
+Print Assumptions link_Enc_makespan_term_after_prepare.
